@@ -91,6 +91,7 @@ pub fn cases(tier: Tier) -> Vec<GCase> {
                 c.named = Some(Arc::new(move |h: &Honest| alias_devs(xor, p, a, b, h)));
                 c.extra = Some(Arc::new(move |_k, v| vec![("+2".into(), v + fe(2)), ("+3".into(), v + fe(3)), ("^1".into(), if v == zero() { one() } else { zero() })]));
                 c.confirm = tier == Tier::Thorough || p <= 4 || p % 32 == 0 || p == 127;
+                c.rewire = p <= 1 || ((p == 3 || (tier == Tier::Thorough && p % 16 == 0)) && a == zero());
                 out.push(c);
             }
         }
